@@ -170,6 +170,21 @@ pub fn parse_define(toks: &[String], d: &mut Defines) {
     d.insert(name.clone(), Some(Define::new(name, args, body)));
 }
 
+/// like parse_define, but the Define stored under the key carries another identifier
+pub fn parse_define_alias(toks: &[String], d: &mut Defines) {
+    let key = unhex_str(&toks[1]);
+    let ident = unhex_str(&toks[2]);
+    let nargs: usize = toks[4].parse().unwrap();
+    let mut args = Vec::new();
+    let mut i = 5;
+    for _ in 0..nargs {
+        args.push((unhex_str(&toks[i]), opt_unhex_str(&toks[i + 1])));
+        i += 2;
+    }
+    let body = opt_unhex_str(&toks[i]).map(|t| DefineText::new(t, None));
+    d.insert(key, Some(Define::new(ident, args, body)));
+}
+
 pub fn new_defines() -> Defines {
     HashMap::new()
 }
